@@ -13,7 +13,10 @@ NCPU = os.cpu_count() or 4
 DEFAULT_SEED = 20260927
 
 ENV = dict(os.environ)
-ENV.update({"CARGO_NET_OFFLINE": "true", "RUST_BACKTRACE": "0", "CARGO_TERM_COLOR": "never"})
+ENV.update({"CARGO_NET_OFFLINE": "true", "RUST_BACKTRACE": "0", "CARGO_TERM_COLOR": "never",
+            # for the asan variant: our own quarantine keeps freed blocks, so LeakSanitizer is off;
+            # a report ends the worker with exit code 99 (seen as a crash, replay from the journal)
+            "ASAN_OPTIONS": "detect_leaks=0:exitcode=99:abort_on_error=0:allocator_may_return_null=1:print_summary=1"})
 
 
 class HarnessError(Exception):
@@ -66,7 +69,13 @@ def build(variant, pkgs=("seq", "buf")):
         return
     cmd = ["cargo", "build", "--offline"]
     tdir = TARGET
-    if variant in ("vdebug", "vrelease"):
+    env = ENV
+    if variant == "asan":
+        tdir = os.path.join(TARGET, "asan")
+        env = dict(ENV)
+        env["RUSTFLAGS"] = "-Zsanitizer=address"
+        cmd = ["cargo", "+nightly", "build", "--offline", "--profile", "vrelease", "--target", "x86_64-unknown-linux-gnu", "--features", "asan"]
+    elif variant in ("vdebug", "vrelease"):
         cmd += ["--profile", variant]
     elif variant == "nostd":
         tdir = os.path.join(TARGET, "nostd")
@@ -83,7 +92,17 @@ def build(variant, pkgs=("seq", "buf")):
         cmd += ["-p", p]
     cmd += ["--target-dir", tdir]
     t0 = time.time()
-    r = subprocess.run(cmd, cwd=SIM, env=ENV, stdout=subprocess.PIPE, stderr=subprocess.STDOUT, text=True)
+    if variant == "asan":
+        # --features applies per package: build them one by one
+        for p in pkgs:
+            r = subprocess.run([c for c in cmd if c not in pkgs and c != "-p"] + ["-p", p], cwd=os.path.join(SIM, p), env=env, stdout=subprocess.PIPE, stderr=subprocess.STDOUT, text=True)
+            if r.returncode != 0:
+                sys.stderr.write(r.stdout[-6000:])
+                raise HarnessError("build failed for variant asan/%s" % p)
+        log("[build] asan %s ok (%.1fs)" % (",".join(pkgs), time.time() - t0))
+        _built.add(key)
+        return
+    r = subprocess.run(cmd, cwd=SIM, env=env, stdout=subprocess.PIPE, stderr=subprocess.STDOUT, text=True)
     if r.returncode != 0:
         sys.stderr.write(r.stdout[-6000:])
         raise HarnessError("build failed for variant %s" % variant)
@@ -102,12 +121,16 @@ def binpath(variant, name):
         return os.path.join(TARGET, "nostd", "vdebug", name)
     if variant == "xplat":
         return os.path.join(TARGET, "xplat", "vrelease", name)
+    if variant == "asan":
+        return os.path.join(TARGET, "asan", "x86_64-unknown-linux-gnu", "vrelease", name)
     raise HarnessError("unknown variant " + variant)
 
 
 # ----------------------------------------------------------------------------- batches
 
 def _sig_name(rc):
+    if rc == 99:
+        return "AddressSanitizer-report"
     if rc < 0:
         try:
             return signal.Signals(-rc).name
@@ -370,6 +393,59 @@ def minimise(engine, variant, rec, want_kind, budget_s=60, max_execs=1500, list_
                     ops = cand_ops
                     cur[list_key] = ops
                     break
+    # 2b. simplify the nest (E-buf): replace an adapter node by one of its children
+    if isinstance(cur.get("plan"), dict):
+        def paths(node, pre=()):
+            out = []
+            for k in ("a", "b", "in"):
+                if isinstance(node.get(k), dict):
+                    out.append(pre + (k,))
+                    out += paths(node[k], pre + (k,))
+            return out
+
+        def get(node, path):
+            for k in path:
+                node = node[k]
+            return node
+
+        def put(root, path, val):
+            if not path:
+                return val
+            root = copy.deepcopy(root)
+            n = root
+            for k in path[:-1]:
+                n = n[k]
+            n[path[-1]] = val
+            return root
+
+        improved = True
+        while improved:
+            improved = False
+            for pth in sorted(paths(cur["plan"]), key=len):
+                child = get(cur["plan"], pth)
+                cand = dict(cur)
+                cand["plan"] = put(cur["plan"], pth[:-1], child)
+                if fails(cand):
+                    cur = cand
+                    cur[list_key] = ops
+                    improved = True
+                    break
+        # shrink leaf sizes
+        for pth in [()] + paths(cur["plan"]):
+            node = get(cur["plan"], pth)
+            for key in ("n", "cap", "pre", "init"):
+                v = node.get(key)
+                if isinstance(v, int) and v > 1 and "hex" not in node:
+                    for nv in (1, 2, v // 2):
+                        if nv < v:
+                            nn = dict(node)
+                            nn[key] = nv
+                            cand = dict(cur)
+                            cand["plan"] = put(cur["plan"], pth, nn)
+                            if fails(cand):
+                                cur = cand
+                                node = nn
+                                break
     # 3. simplify the environment
     cfg = cur.get("cfg", {})
     for key, simple in (("parity", "even"), ("realloc", "move")):
